@@ -368,29 +368,38 @@ def replay_native(h, repo, hdir, tdir, logdir, pid, res):
         record["replay"] = "no concrete playback test was generated"
         json.dump(record, open(rpath, "w"), indent=1)
         return None, rpath
-    # keep the generated test text
-    gen = []
-    for t in new_tests:
-        m = re.search(r"(/// Test generated for harness[^\n]*\n(?:.*\n)*?#\[test\]\nfn " + t + r"\(\) \{\n(?:.*\n)*?\}\n)", after)
-        gen.append(m.group(1) if m else t)
-    record["playback_tests"] = gen
+    # keep the generated test text; tests generated for cover points are not counterexamples
+    blocks = re.findall(r"/// Test generated for harness[^\n]*\n(?:///[^\n]*\n|\n)*#\[test\]\nfn kani_concrete_playback_\w+\(\) \{\n(?:.*\n)*?\}\n", after)
+    cex = []
+    for b_ in blocks:
+        t = re.search(r"fn (kani_concrete_playback_\w+)", b_).group(1)
+        if t in new_tests and "Check for `cover`" not in b_:
+            cex.append((t, b_))
+    record["playback_tests"] = [b_ for _, b_ in cex]
+    if not cex:
+        record["replay"] = "concrete playback produced no counterexample test"
+        json.dump(record, open(rpath, "w"), indent=1)
+        return None, rpath
     ptdir = tdir + "-playback"
     reproduced = False
     outs = []
-    for profile in ([], ["--release"]):
-        cmd = ["cargo", "kani", "playback", "-Z", "concrete-playback", "-p", h["package"], "--target-dir", ptdir] + profile + ["--"] + new_tests[:1]
-        lp2 = os.path.join(logdir, name + ".playback-run%s.log" % ("-release" if profile else ""))
-        with open(lp2, "w") as lf:
-            try:
-                rc = subprocess.call(cmd, cwd=repo, env=base_env(hdir), stdout=lf, stderr=subprocess.STDOUT, timeout=1800)
-            except subprocess.TimeoutExpired:
-                rc = -9
-        out = open(lp2, errors="replace").read()
-        failed = bool(re.search(r"test result: FAILED|panicked at", out)) and rc != 0
-        outs.append({"profile": "release" if profile else "dev", "rc": rc, "test_failed": failed,
-                     "panic": re.findall(r"panicked at [^\n]*\n[^\n]*", out)[:3]})
-        if failed:
-            reproduced = True
+    env = base_env(hdir)
+    env["CARGO_TARGET_DIR"] = ptdir
+    for profile in ([],):  # dev profile = the semantics Kani models and the pinned suite runs
+        for t, _ in cex[:3]:
+            cmd = ["cargo", "kani", "playback", "-Z", "concrete-playback", "-p", h["package"]] + profile + ["--", t]
+            lp2 = os.path.join(logdir, "%s.playback-run%s.%s.log" % (name, "-release" if profile else "", t[-6:]))
+            with open(lp2, "w") as lf:
+                try:
+                    rc = subprocess.call(cmd, cwd=repo, env=env, stdout=lf, stderr=subprocess.STDOUT, timeout=1800)
+                except subprocess.TimeoutExpired:
+                    rc = -9
+            out = open(lp2, errors="replace").read()
+            failed = bool(re.search(r"test result: FAILED", out)) and rc != 0
+            outs.append({"profile": "release" if profile else "dev", "test": t, "rc": rc, "test_failed": failed,
+                         "panic": re.findall(r"panicked at [^\n]*\n[^\n]*", out)[:3]})
+            if failed:
+                reproduced = True
     record["native_runs"] = outs
     record["reproduced"] = reproduced
     json.dump(record, open(rpath, "w"), indent=1)
